@@ -388,6 +388,10 @@ theorem errorf_sat {n : Int} {s : St} {l0 l : Lexer} : Sat (errorf l) (Post n s 
   ⟨_, rfl, fun _ h => absurd h (by simp),
     fun _ => ⟨{ typ := .tError, pos := l.pos.toNat, val := [] }, by simp, Or.inr rfl⟩⟩
 
+theorem errorfAt_sat {n : Int} {s : St} {l0 l : Lexer} {pos : Int} : Sat (errorfAt l pos) (Post n s l0) :=
+  ⟨_, rfl, fun _ h => absurd h (by simp),
+    fun _ => ⟨{ typ := .tError, pos := pos.toNat, val := [] }, by simp, Or.inr rfl⟩⟩
+
 theorem emit_items {l l' : Lexer} {t : ItemType} (h : l.emit t = some l') :
     ∃ it, l'.items.back? = some it ∧ it.typ = t := by
   unfold Lexer.emit at h
